@@ -90,6 +90,18 @@ def replay_line(job, path):
         w = None
         dg = run_e2(spec, lambda: make_monitors(mons), [tuple(x) for x in path], prefix_ok=True,
                     trace=bool(job.get('trace')))
+        if any((m[0] if isinstance(m, (list, tuple)) else m) == 'splitinv' for m in mons):
+            # the split-invariance comparison forks E1 worlds, so it is re-derived by a linear (fork-free) E1 replay;
+            # the E1 emulation of a split itself is validated against real consecutive simulate() calls above
+            w = LineWorld(spec, make_monitors(mons))
+            n = 0
+            with _Quiet():
+                for lab in path:
+                    n += 1
+                    try:
+                        w.apply(tuple(lab))
+                    except Violation as v:
+                        return {'clause': v.clause, 'detail': v.detail, 'step': n}
         return {'final': dg}
     except Violation as v:
         return {'clause': v.clause, 'detail': v.detail, 'step': getattr(v, 'mc_steps', 0)}
